@@ -489,6 +489,26 @@ def r12_space_shift_enters_the_trajectory(ctx):
                   f"{g.cfg.dimension} feature(s) every individual gets the unshifted trajectory instead of the documented one", construct="sources reach the trajectory", instance=g.cfg.name)
 
 
+def r13_metric_of_the_feature_positions(ctx):
+    """The space shift of feature k is scaled by the metric at *that feature's* position: in the shared-speed model the positions are
+    g * exp(-delta_k), so its metric depends on the deltas (`deltas` is an ancestor of `metric`); a metric computed from the shared scalar `g`
+    alone gives every feature the same scaling and the trajectories of shifted individuals are not the documented ones."""
+    from ..specgraph import graphs
+    ctx.rule("C09.R13", "the metric is computed from the per-feature positions (in the shared-speed model it depends on the deltas)", 1)
+    n = 0
+    for g in graphs(ctx):
+        if "metric" not in g.nodes or "deltas" not in g.nodes:
+            continue
+        n += 1
+        where = (g.model.cls[0], g.model.cls[1] + ".get_variables_specs")
+        anc = g.ancestors("metric")
+        ctx.check("deltas" in anc, "C09.R13", where, None, f"{g.cfg.name}: `metric` depends on the deltas (parents {g.nodes['metric'].parents})",
+                  f"{g.cfg.name}: `metric` is computed from {g.nodes['metric'].parents} and does not depend on `deltas`: every feature's space shift is scaled by the metric at the shared position g "
+                  "instead of the feature's own position g * exp(-delta_k)", construct="metric depends on the deltas", instance=g.cfg.name)
+    if not n:
+        ctx.unknown("C09.R13", ("leaspy.models.shared_speed_logistic", "SharedSpeedLogisticModel.get_variables_specs"), None, "no configuration with `deltas` and `metric` found", construct="metric depends on the deltas")
+
+
 def rules(ctx):
     # the trajectory is the closed form at the parameters the caller supplied: the container they are put into keeps them unchanged (same rule as C16.R2b)
     from .c16 import r2b_values_stored_as_given
@@ -504,6 +524,7 @@ def rules(ctx):
     r7_requested_ages(ctx)
     r8_conditioning(ctx)
     r12_space_shift_enters_the_trajectory(ctx)
+    r13_metric_of_the_feature_positions(ctx)
     ctx.trust("sigmoid is increasing with range (0,1) and sigmoid(-log g) = 1/(1+g); sympy sign assumptions; pandas join keeps the left index order")
     ctx.assume("weights of data variables are 0/1 masks")
 
